@@ -48,7 +48,7 @@ package ipfslog
 //@ func (*IPFSLog).traverse
 //@   requires l != nil && validEntries(l.Entries) && l.SortFn != nil
 //@   requires rootEntries == nil || validEntries(rootEntries)
-//@   lockrequires held[l.lock] != 0
+//@   lockrequires onlyLogLockHeld(l)
 //@   ensures rootEntries == nil ==> err != nil
 //@   ensures rootEntries != nil ==> err == nil && validEntries(result0) && fresh(result0) && fresh(om(result0).values) && freshKeys(om(result0))
 //@   ensures [traverse-respects-amount] rootEntries != nil && amount >= 0 ==> len(om(result0).keys) <= amount
@@ -74,7 +74,7 @@ package ipfslog
 
 //@ func (*IPFSLog).values
 //@   requires l != nil && validEntries(l.Entries) && l.SortFn != nil && (l.heads == nil || validEntries(l.heads))
-//@   lockrequires held[l.lock] != 0
+//@   lockrequires onlyLogLockHeld(l)
 //@   ensures validEntries(result) && fresh(result) && fresh(om(result).values)
 //@   ensures [values-are-log-entries] forall k string :: has(om(result).values, k) ==> inMap(l.heads, om(result).values[k]) || inMap(l.Entries, om(result).values[k])
 //@   lockensures held[om(result).lock] == 0
@@ -141,3 +141,87 @@ package ipfslog
 //@     invariant isOM(l.Next) && omInv(om(l.Entries)) && sepMaps(l)
 //@     invariant forall k string :: has(om(l.Entries).values, k) == has(old(om(l.Entries).values), k) || k == ehash(e)
 //@     loopmodifies om(l.Next).keys, mapof(om(l.Next).values)
+
+// ---- read accessors (C13: every guarded access happens under l.lock; C05: accessors hand out copies) ----
+//@ define noLocksHeld() = forall o ref :: held[o] == 0
+//@ define onlyLogLockHeld(l *IPFSLog) = held[l.lock] != 0 && (forall o ref :: o != l.lock ==> held[o] == 0)
+
+//@ func (*IPFSLog).Len
+//@   requires logInv(l)
+//@   replay racelog
+//@   lockrequires noLocksHeld()
+
+//@ func (*IPFSLog).RawHeads
+//@   requires logInv(l)
+//@   lockrequires noLocksHeld()
+//@   ensures result == l.heads
+
+//@ func (*IPFSLog).Get
+//@   requires logInv(l)
+//@   lockrequires noLocksHeld()
+//@   ensures result1 == has(om(l.Entries).values, str(c))
+//@   ensures result1 ==> result0 == om(l.Entries).values[str(c)]
+
+//@ func (*IPFSLog).Has
+//@   requires logInv(l)
+//@   lockrequires noLocksHeld()
+//@   ensures result == has(om(l.Entries).values, str(c))
+
+//@ func (*IPFSLog).GetEntries
+//@   requires logInv(l)
+//@   lockrequires noLocksHeld()
+//@   ensures [get-entries-returns-a-copy] isOM(result) && fresh(result) && fresh(om(result).values)
+//@   ensures forall k string :: has(om(result).values, k) == has(om(l.Entries).values, k) && (has(om(l.Entries).values, k) ==> om(result).values[k] == om(l.Entries).values[k])
+
+//@ func (*IPFSLog).Heads
+//@   requires logInv(l)
+//@   lockrequires noLocksHeld()
+//@   ensures [heads-returns-a-copy] validEntries(result) && fresh(result) && fresh(om(result).values)
+
+//@ func (*IPFSLog).Values
+//@   requires logInv(l)
+//@   lockrequires noLocksHeld()
+//@   ensures [values-returns-a-copy] validEntries(result) && fresh(result) && fresh(om(result).values)
+
+//@ func (*IPFSLog).ToSnapshot
+//@   requires logInv(l)
+//@   lockrequires noLocksHeld()
+//@   ensures result != nil && fresh(result)
+
+//@ func entrySliceToCids
+//@   requires validSlice(slice)
+//@   ensures len(result) == len(slice) && (forall i int :: 0 <= i && i < len(slice) ==> result[i] == slice[i].Hash)
+//@   loop 0
+//@     invariant len(cids) == $k && off(cids) == 0 && (cids == nil || fresh(cids)) && (forall i int :: 0 <= i && i < $k ==> cids[i] == slice[i].Hash)
+
+//@ func (*IPFSLog).ToJSONLog
+//@   requires logInv(l)
+//@   lockrequires noLocksHeld()
+//@   ensures result != nil && fresh(result) && result.ID == l.ID && len(result.Heads) == len(om(l.heads).keys)
+//@   loop 0
+//@     invariant len(hashes) == $k && off(hashes) == 0 && (hashes == nil || fresh(hashes)) && validSlice(stack)
+
+//@ func (*IPFSLog).SetIdentity
+//@   requires logInv(l) && identity != nil
+//@   lockrequires noLocksHeld()
+//@   modifies l.Identity, l.Clock
+//@   ensures logInv(l) && l.Identity == identity
+//@   ensures [set-identity-never-lowers-the-clock] l.Clock.(*entry.LamportClock).Time >= old(l.Clock.(*entry.LamportClock).Time)
+//@   loop 0
+//@     invariant t >= old(l.Clock.(*entry.LamportClock).Time)
+
+//@ func (*CanAppendContext).GetLogEntries
+//@   requires c != nil && logInv(c.log)
+//@   lockrequires onlyLogLockHeld(c.log)
+//@   ensures len(result) == len(om(c.log.Entries).keys)
+//@   loop 0
+//@     invariant fresh(entries) && len(entries) == len(logEntries)
+
+//@ func toMultihash
+//@   requires logInv(log) && services != nil
+//@   replay racelog
+//@   lockrequires noLocksHeld()
+
+//@ func (*IPFSLog).ToMultihash
+//@   requires logInv(l)
+//@   lockrequires noLocksHeld()
